@@ -91,13 +91,15 @@ def _run_once(cmd, text, timeout, env=None):
         return -999, out, time.time() - t0, True
 
 
-def run_impl(reqs, profile="debug", timeout=300, stack=None, flush=False, max_aborts=25):
+def run_impl(reqs, profile="debug", timeout=300, stack=None, flush=False, max_aborts=25, watchdog_ms=None):
     """Run request lines against the real crate. A process abort (stack overflow, SIGSEGV) or a
     timeout is attributed to the request being processed (found in --flush mode); the remaining
     requests continue in a new process (state is lost, which only matters for stateful streams)."""
     env = dict(os.environ)
     if stack:
         env["EE_STACK"] = str(stack)
+    if watchdog_ms:
+        env["EE_WATCHDOG_MS"] = str(watchdog_ms)
     out_lines = []
     todo = list(reqs)
     aborts = 0
